@@ -93,7 +93,7 @@ def run_cases(chk, srv, ex, plans, tag, prop="C11", shard=25, model=True):
         i = 0
         while i < len(reqs):
             res = H.run_history(srv, objs, files, backed, reqs[i:i + 40] if stop else reqs, stop_after_mutation=stop,
-                                routes=ex["routes"])
+                                routes=ex["routes"], repeat_created=True)
             i += res["n"] if stop else len(reqs)
             deferred += [(objs, files, backed, d) for d in res["deferred"]]
             if res["reqs"]:
@@ -152,13 +152,21 @@ def run(chk):
         keep = [r for r in mx if xb(r) and ("|body:" not in r["cls"] or r["cls"].endswith("body:missing") or rng.random() < 0.12
                 or (r["cls"].startswith(("path:rel|", "path:arel|")) and r["body"][0] == "val" and r["body"][2]["k"] == "elem")
                 or (r["method"] == "PUT" and "qualifier_type" in r["rule"] and r["cls"].startswith(("valid|body:qual", "path:valid|body:qual")))
-                or r["cls"].endswith("body:upload-samename")
+                or r["cls"].endswith("body:upload-samename") or "defective-" in r["cls"] or "name" in r["cls"].split("body:")[-1]
+                or "deep-" in r["cls"]
+                or (r["method"] == "POST" and r["body"][0] == "val" and r["body"][1] == "json"
+                    and r["cls"].startswith(("valid|", "path:coll|", "path:nested|")))      # creating requests (repeated after a 201)
                 or (r["body"][0] == "val" and "classchange" in str(r["cls"]) and r["cls"].startswith(("valid|", "path:coll|", "path:classchange|"))))]
         mx_run = keep
     else:
         mx_run = mx
     objs, files = CS.fixture()
     plans = [(objs, files, False, mx_run, True)]
+    # first of all (nothing has been routed yet), once per application object: writes repeated on the same URL
+    plans = [(objs, files, False, CS.repeat_after_write(), False), (objs, files, False, CS.repeat_after_write(), False)] + plans
+    qc = CS.query_combinations(ex["routes"], expects)
+    plans.append(([], [], False, qc, False))          # against an empty store ...
+    plans.append((objs, files, False, qc, False))     # ... and against the fixture
     pool = [r for r in mx if not r.get("oracle_only")]
     nh, hl = (60, 25) if not full else (600, 30)
     for k in range(nh):
